@@ -6,6 +6,7 @@ import (
 	"strings"
 
 	"tkestack.io/galaxy/pkg/api/galaxy/constant"
+	"tkestack.io/galaxy/pkg/ipam/schedulerplugin/util"
 
 	"gxverif/hx"
 	"gxverif/plugin"
@@ -14,6 +15,7 @@ import (
 // Signatures of the C07 monitor.
 const (
 	SigD15          = "bind-after-unsized-filter-exceeds-size" // known finding (DESIGN D15)
+	SigSync         = "pool-exceeds-size:syncips"              // known finding: syncPodIP re-creates a released member
 	SigExceedPrefix = "pool-exceeds-size:"
 )
 
@@ -98,6 +100,11 @@ func MonitorC07(w *plugin.World, step int) []hx.Violation {
 			size, sized = TruthPoolSize(w, P)
 			if len(f) >= 3 {
 				if lp := w.ListerPod(f[1], f[2]); lp != nil {
+					if k, err := util.FormatKey(lp); err == nil && !k.Deployment() {
+						// the property speaks of "pods of the deployments that share the pool": a pod of another workload
+						// kind that carries the pool annotation is bound without any size check - outside the statement
+						continue
+					}
 					fi, filtered := st.filters[string(lp.UID)]
 					switch {
 					case !filtered || !fi.saw:
